@@ -48,6 +48,22 @@ B = {"type": "record", "name": "Event", "namespace": "acme", "fields": [
     {"name": "note", "type": "string", "default": "n/a"},
     {"name": "sub", "type": ["null", {"type": "record", "name": "Sub", "fields": [{"name": "x", "type": "long", "default": 4}, {"name": "y", "type": "string", "default": "why"}]}], "default": None},
     {"name": "tags", "type": {"type": "array", "items": "string"}, "default": []}]}
+A_V2 = {"type": "record", "name": "EventV2", "namespace": "acme2", "aliases": ["acme.Event", "acme.v0.Event"], "fields": [
+    {"name": "id", "type": "long"}, {"name": "name", "type": "string"},
+    {"name": "kind", "type": {"type": "enum", "name": "KindV2", "aliases": ["acme.Kind"], "symbols": ["A", "B", "C"]}, "default": "A"},
+    {"name": "sub", "type": ["null", {"type": "record", "name": "SubV2", "aliases": ["acme.Sub", "legacy.sub.Sub"], "fields": [{"name": "x", "type": "int", "default": 3}]}], "default": None},
+    {"name": "again", "type": ["null", "KindV2"], "default": None}]}
+# a container file from an older release: its header schema carries a default that does not match the field type
+LEGACY_SCHEMA = {"type": "record", "name": "Legacy", "namespace": "acme", "fields": [{"name": "n", "type": "int", "default": "oops"}, {"name": "s", "type": "string"}]}
+LEGACY_READER = {"type": "record", "name": "Legacy", "namespace": "acme", "fields": [{"name": "n", "type": "int", "default": 0}, {"name": "s", "type": "string"}]}
+
+
+def _legacy_file():
+    from ..ref import container as rc
+
+    return rc.write([("avro.schema", json.dumps(LEGACY_SCHEMA).encode()), ("avro.codec", b"null")], [(2, False)], b"L" * 16, "null", [(2, b"\x0a\x02a\x02\x00")])
+
+
 NODE = {"type": "record", "name": "Node", "namespace": "acme", "fields": [
     {"name": "v", "type": "int"}, {"name": "next", "type": ["null", "Node"], "default": None}]}
 DEC3 = {"type": "bytes", "logicalType": "decimal", "precision": 3, "scale": 1}
@@ -86,6 +102,9 @@ class Pool:
         self.hinted = {"-type": "un.Ub", "x": 5}
         self.dec_s0_p6 = fa.parse_schema({"type": "bytes", "logicalType": "decimal", "precision": 6, "scale": 2})
         self.dec_s0_p20 = fa.parse_schema({"type": "bytes", "logicalType": "decimal", "precision": 20, "scale": 2})
+        # a later version of A whose named types were renamed and carry dotted aliases of the old names
+        self.reader_aliased = copy.deepcopy(A_V2)
+        self.reader_aliased_parsed = fa.parse_schema(copy.deepcopy(A_V2))
         self.block = next(iter(fa.block_reader(io.BytesIO(_container_const(fa)))))  # a Block handed to write_block
         self.named = {}  # caller-supplied named-schema dictionary (may be filled)
         self.tmpdir = tmpdir
@@ -281,6 +300,12 @@ CALLS = {
     "generate_a": lambda fa, p: _gen(fa, p.parsed_a),
     "generate_b_raw": lambda fa, p: _gen(fa, p.raw_b),
     "generate_node": lambda fa, p: _gen(fa, p.parsed_node, 1),
+    "read_a_as_aliased": lambda fa, p: fa.schemaless_reader(io.BytesIO(_enc("a")), p.raw_a, p.reader_aliased),
+    "read_a_as_aliased_parsed": lambda fa, p: fa.schemaless_reader(io.BytesIO(_enc("a")), p.parsed_a, p.reader_aliased_parsed),
+    "container_read_a_as_aliased": lambda fa, p: list(fa.reader(io.BytesIO(_container_const(fa)), p.reader_aliased)),
+    "legacy_read_with_reader_schema": lambda fa, p: list(fa.reader(io.BytesIO(_legacy_file()), copy.deepcopy(LEGACY_READER))),
+    "legacy_read_plain": lambda fa, p: list(fa.reader(io.BytesIO(_legacy_file()))),
+    "legacy_block_read_plain": lambda fa, p: [list(b) for b in fa.block_reader(io.BytesIO(_legacy_file()))],
     "load_schema": _load,
     "load_child": lambda fa, p: _load_named(fa, p, "acme.Child"),
     "load_order_diamond": lambda fa, p: _load_named(fa, p, "acme.Order"),
@@ -513,7 +538,7 @@ COLLIDERS = ["parse_a_into_named", "parse_b_into_named", "expand_a", "expand_nod
              "read_a_as_b", "read_b_as_a", "json_read_a_absent", "json_read_a_raw_absent", "json_read_b_absent", "generate_a", "generate_b_raw",
              "dec3_read", "dec12_read", "write_a_bad_last", "container_a", "container_read_a_as_b", "validate_a_raises", "load_schema",
              "parse_node_parsed_into_named", "write_node", "read_a", "read_b", "read_dangling_sub", "canon_piecewise", "container_piecewise",
-             "container_union_piecewise", "container_read_a", "generate_dangling", "load_child", "load_order_diamond", "readers_overlap", "writers_overlap", "json_read_nested_defaults", "block_copy_twice", "block_copy_pool", "write_hinted_strict", "write_hinted", "dec_p6_read", "dec_p20_read"]
+             "container_union_piecewise", "container_read_a", "generate_dangling", "load_child", "load_order_diamond", "readers_overlap", "writers_overlap", "read_a_as_aliased", "legacy_read_with_reader_schema", "legacy_read_plain", "json_read_nested_defaults", "block_copy_twice", "block_copy_pool", "write_hinted_strict", "write_hinted", "dec_p6_read", "dec_p20_read"]
 
 
 def step_check(res, fa, pool, hist, call):
